@@ -87,8 +87,7 @@ def make_detached_case(rng):
     """the same word sequences inside a flow that is detached from the main text: the argument of \\footnote,
     \\footnotetext, \\caption, or of a macro named in the extraction list"""
     c = make_case(rng)
-    names = gen.Names(rng)
-    a, b = names.word(), names.word()
+    a, b = 'Xhead', 'Xtail'        # (no word of the case may be a part of the words around the detached flow)
     body = c['src'].strip('\n') if rng.random() < 0.5 else c['src']
     k = rng.randrange(4)
     if k == 0:
